@@ -1201,9 +1201,63 @@ impl<'a, C: KeyColl> KeyRun<'a, C> {
         Step::Continue
     }
 
-    fn finish(&mut self, _nops: usize) {
+    /// end-of-case observation sweep (large universes get no per-state closure, so look at
+    /// everything once at the end): every stored key and its neighbours through the observed queries
+    fn final_sweep(&mut self, nops: usize) {
+        if self.coll.is_none() || self.rc.inject.is_some() || self.rc.inject_all || self.rc.want_state {
+            return;
+        }
+        let list = self.is_list_variant;
+        let q = (self.rc.obs(1) && !list) || (self.rc.obs(13) && list) || self.rc.obs(20) || self.rc.obs(10);
+        let g = (self.rc.obs(6) && !list) || (self.rc.obs(13) && list) || self.rc.obs(20) || self.rc.obs(10);
+        if !q && !g {
+            return;
+        }
+        let mut probes: Vec<i64> = Vec::new();
+        if self.u <= 64 {
+            probes.extend(0..=(self.u as i64 + 1));
+        } else {
+            let t = self.clock;
+            let mut ks: Vec<i32> = self.model.entries.iter().filter(|e| e.exp > t).map(|e| e.k).collect();
+            ks.sort();
+            ks.dedup();
+            for k in ks.iter().take(600) {
+                // probe_of subtracts one
+                probes.push(*k as i64);
+                probes.push(*k as i64 + 1);
+                probes.push(*k as i64 + 2);
+            }
+            probes.push(0);
+            probes.push(self.u as i64 + 1);
+            probes.sort();
+            probes.dedup();
+        }
+        for (j, p) in probes.iter().enumerate() {
+            if q {
+                let kind = [K_FL, K_FLE, K_FLEBY][j % 3];
+                if let Step::Stop = self.op_query(nops, &RawOp::new(kind, &[*p, (j % 3) as i64])) {
+                    return;
+                }
+                self.out.callbacks.pop();
+            }
+            if g {
+                if let Step::Stop = self.op_get(nops, &RawOp::new(K_GET, &[*p])) {
+                    return;
+                }
+                self.out.callbacks.pop();
+            }
+        }
+    }
+
+    fn finish(&mut self, nops: usize) {
         if self.out.failure.is_some() || self.out.blocked.is_some() {
             return;
+        }
+        if self.u > 64 {
+            self.final_sweep(nops);
+            if self.out.failure.is_some() || self.out.blocked.is_some() {
+                return;
+            }
         }
         if self.rc.want_state {
             if let Some(coll) = self.coll.as_ref() {
